@@ -11,6 +11,7 @@
 import Zed.Proofs.ZngAlloc
 import Zed.Proofs.ZngValidate
 import Zed.Proofs.ZngTypes
+import Zed.Proofs.ZngPanics
 namespace Zed.Props.C11
 open Zed.Zng Zed.Generated.C01
 
@@ -133,6 +134,16 @@ theorem not_reader_panic_free_string_length (decomp : Bytes → Nat → Option B
   · rename_i e al h; rw [hs] at h; cases h; rfl
   · rename_i h; rw [hs] at h; cases h
 
+/-- **reader_panics_only_at_known_sites** (the partial form of "no panic escapes").  FULL statement
+    — false, see the three negations above —: the outcome is never a panic.  Proved: for every
+    input, every option setting, every LZ4 behaviour and every starting context, if the modelled
+    reader panics then it is at one of exactly these three places, all of them an `int` taken from a
+    64-bit varint and used as a length or index without a sign check. -/
+theorem reader_panics_only_at_known_sites (o : ROpts) (decomp : Bytes → Nat → Option Bytes) (ctx : Ctx)
+    (bs : Bytes) (s : String) (h : (readStream o decomp ctx bs).out = .panic s) :
+    s ∈ ["mapper-lookup-negative-id", "newbuffer-negative-length", "buffer-read-negative-length"] :=
+  readStream_panic o decomp bs.length ctx bs s (Nat.le_refl _) h
+
 /-! ## Validate -/
 
 /-- **validate_sound_partial.**  FULL statement (false of the current code, see the two negations
@@ -148,6 +159,18 @@ theorem validate_sound_partial (t : ZTy) (b : Option Bytes) (hg : t.plain = true
   split at h
   · rename_i hw; exact walk_sound t b hg hw
   · cases h
+
+/-- **wellformed_walk_total.**  Conversely, on a structurally consistent value of such a type
+    `Walk` reaches none of the panic sites of `zcode.Iter` (and reports no error): for these types
+    `Validate` accepts exactly the well-formed values. -/
+theorem wellformed_walk_total (t : ZTy) (b : Option Bytes) (hg : t.plain = true) (h : WellFormed t b) :
+    walk t b = .ok () := walk_complete t b hg h
+
+theorem validate_iff_wellformed (t : ZTy) (b : Option Bytes) (hg : t.plain = true) :
+    validate t b = true ↔ WellFormed t b := by
+  constructor
+  · exact validate_sound_partial t b hg
+  · intro h; simp [validate, walk_complete t b hg h]
 
 /-- non-vacuity of the guard and of the hypothesis -/
 example : (ZTy.record (.cons [97] (.array (.prim 9)) (.cons [98] (.union (.cons (.prim 9) (.cons (.prim 25) .nil))) .nil))).plain = true := by
